@@ -354,7 +354,9 @@ def run(ctx, out, replay=None):
         cases.append(fr.unjson(replay["case"]))
     cases += fr.load_corpus("C16")
     while len(cases) < n:
-        cases.append(gen_dag_case(ctx.rng, big=True) if len(cases) % 100 == 7 else gen_case(ctx.rng))
+        # (the long histories are capped at 300: their Coq text is two orders of magnitude longer than a small case's)
+        cases.append(gen_dag_case(ctx.rng, big=True) if len(cases) % 100 == 7 and len(cases) < 30000
+                     else gen_case(ctx.rng))
     fr.run_cases(ctx, out, cases, run_impl, to_coq, oracle, failure_key, HEADER,
                  dist_key=lambda c: c["kind"] + ("/" + c["op"] + "/" + c["via"] if c["kind"] == "ineq" else ""),
                  nontrivial=nontrivial, shard=250, shrink=shrink)
